@@ -23,7 +23,7 @@ RULE = ("one case = (parser shape, exit_on_error, parse method, input[, up to tw
         "required subcommands with their own --cfg; plain argparse type= callables/choices/nargs/FileType; Path types + "
         "ActionParser; the basic shape again with parser_mode='json'; the types jsonargparse registers itself: Decimal, timedelta, datetime, complex, UUID, Path, Pattern, bytes, range), sub-command parsers and the ActionParser parser built with the root's exit_on_error, with the constructor default or with the opposite value, optionally with a default config file. Inputs from a grammar: option names known / unknown / malformed "
         "(dotted, empty segments, '+' suffix, sub-keys of subclass/dict/dataclass arguments, .help, class_path/init_args/"
-        "dict_kwargs) x values well- and ill-formed for the declared type (broken JSON/YAML, anchors and self-referential "
+        "dict_kwargs, the reserved bookkeeping keys __default_config__/__path__/__orig__) x values well- and ill-formed for the declared type (broken JSON/YAML, anchors and self-referential "
         "aliases, tags, NUL bytes, non-importable / non-class / malformed import paths, wrong-typed class_path/init_args, "
         "missing files, directories, undecodable files, /proc/self/mem); the same material as argv lists, config text, config "
         "objects (dict/Namespace with non-JSON values), environment mappings and config paths; both exit_on_error modes for "
@@ -161,9 +161,16 @@ STRUCT = ["[1, 2]", "[1, x]", "{k: 1}", "{k: x}", "{class_path: calendar.TextCal
           "{class_path: calendar.Calendar, dict_kwargs: 5}", "{class_path: null}", "{v: x}", "{w: {k: [x]}}"]
 
 
+# keys the library reserves for its own bookkeeping inside a configuration; nothing stops a user text / object from holding them
+META_KEYS = ["__default_config__", "__path__", "__orig__"]
+
+
 def gen_name(rng, shape):
     r = rng.random()
     o = rng.choice(OPTS[shape])
+    if r < 0.05:
+        m = rng.choice(META_KEYS)
+        return rng.choice([m, m, o + "." + m, m + ".k"])
     if r < 0.50:
         return o
     if r < 0.68:
@@ -392,7 +399,8 @@ def gen_dcf(rng, shape):
     if r < 0.86:
         return "a: 3\n"
     if r < 0.90:
-        return rng.choice(["a: x\n", "zz: 1\n", "a: [\n", "\udcff\udcfe", "", "a: &x [*x]\n", "- 1\n", "5\n"] + ODD_NUMBERS)
+        return rng.choice(["a: x\n", "zz: 1\n", "a: [\n", "\udcff\udcfe", "", "a: &x [*x]\n", "- 1\n", "5\n"] + ODD_NUMBERS
+                          + ["%s: %s\n" % (m, v) for m in META_KEYS for v in ("abc", "3", "{a: 1}", "[a]", "null", "good.yaml")])
     return gen_text(rng, shape)
 
 
@@ -479,6 +487,12 @@ def directed():
     add("registered", "parse_args", ["--td=x"])
     add("basic", "parse_args", ["--any=!!timestamp abc"])                          # yaml-timestamp-tag
     add("basic", "parse_string", "!!timestamp abc")
+    for m in META_KEYS:                                                          # reserved bookkeeping keys given by the user
+        for v in ("abc", "{a: 1}", "[a]"):
+            add("basic", "parse_args", ["--a=2"], dcf="a: 3\n%s: %s\n" % (m, v))
+            add("basic", "parse_string", "a: 2\n%s: %s\n" % (m, v))
+            add("basic", "parse_args", ["--cfg=case.yaml"], files={"case.yaml": "%s: %s\n" % (m, v)})
+        add("classes", "parse_object", {"cal": {"class_path": "calendar.Calendar", m: 5}})
     # the channels themselves
     add("basic", "parse_args", ["--a=x"])
     add("basic", "parse_args", ["--zz=1"])
@@ -817,20 +831,23 @@ def shrink(case):
 
 
 def search(rng, tier, broken):
-    """failing-input search after a proof/tie broke: a larger batch of the same grammar, first input whose observation is
-    outside the channel and not a listed finding"""
+    """failing-input search after a proof/tie broke: ONE fresh quick-sized batch of the same grammar (bounded: about the cost of
+    the quick correspondence), first input whose observation is outside the channel and not a listed finding"""
     known = framework.load_known_findings(PROP)
-    for _ in range(3):
-        cases = []
-        while len(cases) < 6000:
-            c = gen_case(rng)
-            cases += [dict(c, x=False), dict(c, x=True)]
-        obs = observe(cases)
-        bm, bi, bo = framework.judge_cases(__import__("tie.props.c03", fromlist=["x"]), cases, obs, tag="x")
-        bad = sorted(set(bi) | {i for i, k in bo if FINDING_CLASSES.get(k) not in known})
-        if bad:
-            i = bad[0]
-            return {"case": cases[i], "observed": {k: v for k, v in obs[i].items()}, "explain": describe(cases[i], obs[i])}
+    cases = directed()
+    while len(cases) < 3000:
+        c = gen_case(rng)
+        try:
+            json.dumps(c)
+        except (ValueError, TypeError):
+            continue
+        cases += [dict(c, x=False), dict(c, x=True)]
+    obs = observe(cases)
+    bm, bi, bo = framework.judge_cases(__import__("tie.props.c03", fromlist=["x"]), cases, obs, tag="x")
+    bad = sorted(set(bi) | {i for i, k in bo if FINDING_CLASSES.get(k) not in known})
+    if bad:
+        i = bad[0]
+        return {"case": cases[i], "observed": {k: v for k, v in obs[i].items()}, "explain": describe(cases[i], obs[i])}
     return None
 
 
